@@ -15,7 +15,7 @@ RULE = ('case = (word from a branch row with offsets from corners/random - every
         'CBZ/CBNZ), instruction placed at 0x10000, 0x0, 0x4, 0xFFFFFFF0, 0xFFFFFFFC (increment and targets wrap) and, in Thumb '
         'state, at halfword-but-not-word aligned addresses (Align(PC,4) of BLX / ADR-like forms), '
         'registers holding interworking targets (bit0 set/clear, bit1 set), arch 4..7; PC, LR, T bit and everything else '
-        'compared; PC alignment invariant (Thumb: bit0 = 0, ARM: bits1:0 = 0) after every step; non-trivial = branch '
+        'compared; PC alignment invariant (Thumb: bit0 = 0, ARM: bits1:0 = 0) after every step; plus every load and data-processing encoding with the PC as destination (register lists with bit 15, Rt = 15, Rd = 15; addresses solved onto boundaries); non-trivial = branch '
         'taken; distinct = (row, configuration, code address class)')
 ASSUMPTIONS = ['vf/ref/sem_sys.py transcribes the branch pseudocode; BXJ with Jazelle enabled / trapped is not judged']
 CODES = [0x10000, 0x10000, 0x0, 0x4, 0xFFFFFFF0, 0xFFFFFFFC, 0xFFFFF800, 0x10FF0, 0x10002, 0x10006, 0x2, 0x6, 0xFFFFFFF2, 0xFFFFFFFA,
